@@ -189,7 +189,7 @@ func init() {
 			elem := args[0]
 			set := args[1:]
 			for _, e := range set {
-				if elem == e {
+				if equalValues(elem, e) {
 					return true
 				}
 			}
